@@ -279,9 +279,14 @@ def src_nominal(tid: int, seed: int) -> dict:
                 putMode=rng.choice(["none", "none", "ACK", "UNACK"]), putClosure=rng.choice(["none", "none", "true", "false"]),
                 msgs=rng.choice([[], [], [[1, 2, 3]]]))
     w = World(cfg)
+    other = w.sdir / "other.bin"
+    w.put_file(w.sfs, other, bytes(rng.randrange(256) for _ in range(rng.choice([0, 3, size, size + 5]))))
     for _ in range(rng.choice([1, 1, 2, 3])):
         w.call("S", "put", w.put_request())
         for _ in range(size + 12):
+            if rng.random() < 0.06 and not cfg["mdOnly"]:
+                # the application asks for another file while the handler is busy: refused, the running transfer is unaffected
+                w.call("S", "put", w.put_request(source_file=other))
             e = w.call("S", "fsm", None)
             if any(o["t"] == "EOF" for o in e["out"]) or w.src.state.name == "IDLE":
                 break
